@@ -217,6 +217,8 @@ class Encoder:
                 continue
             if not started:
                 continue
+            if e["k"] == "call" and e["callee"] and e["callee"].rsplit("::", 1)[-1] in ("extend_from_slice", "append"):
+                break  # a group flush: what follows re-initialises the group buffer
             if e["k"] == "call" and e["callee"] and e["callee"].startswith("std::vec::Vec") and e["callee"].endswith("::push"):
                 slots.append([("push", len(slots)), e["args"][1]])
             elif e["k"] == "write":
